@@ -627,6 +627,7 @@ func directOracle(u []term, rep *vh.Report, wd *vh.Watchdog) []bitrow {
 		}
 	}
 	for i := range u {
+		wd.Beat("laws row " + u[i].s.String()) // thorough: ~20000 rows x 20000 columns, the whole loop outlasts the limit under load
 		if !m[i].get(i) {
 			rep.Fail(vh.Failure{Key: pairKey(u[i].s, u[i].s), What: "Identical(x, x) is false", Input: []*spec{u[i].s}})
 		}
